@@ -410,7 +410,7 @@ def _skip_list(desc):
     return set(a[0] if a else (desc.get("kwargs") or {}).get("skipExportGlyphs") or [])
 
 
-def check_scope_and_report(desc, before, after, returned, prefix="", known_out=None):
+def check_scope_and_report(desc, before, after, returned, prefix="", known_out=None, allowed=None):
     """Oracles (c) scope and (d) report for one glyph set.  Returns messages;
     differences explained by a listed open finding go to ``known_out``."""
     out = []
@@ -423,8 +423,9 @@ def check_scope_and_report(desc, before, after, returned, prefix="", known_out=N
         if missing:
             out.append("%sreport: not reported as modified: %s" % (prefix, sorted(missing)))
     if desc["cls"] not in NO_INCLUDE:
-        inc = included_names(desc, names, before)
-        allowed = reachable(before, inc)
+        if allowed is None:
+            inc = included_names(desc, names, before)
+            allowed = reachable(before, inc)
         anychg = {n for n in names & set(after) if before[n] != after[n]}
         outside = (anychg | removed) - allowed
         if desc["cls"] in PRUNING and known_out is not None:
@@ -499,8 +500,19 @@ def execute(scn, scratch_root=None, classify=True):
                             if st["op"] == "filter_call":
                                 msgs += check_scope_and_report(desc, before, after, ret, known_out=kout)
                             else:
+                                # an interpolatable filter selects by *name*: a glyph is included as
+                                # soon as the predicate holds for it in any master
+                                # (BaseIFilter.__call__: any(include(g) for g in glyphs)), and it is
+                                # then processed in every master - scope is the union over the masters
+                                inc_u = set()
+                                for b in before:
+                                    inc_u |= included_names(desc, set(b), b)
+                                allowed_u = set()
+                                for b in before:
+                                    allowed_u |= reachable(b, inc_u)
                                 for k, (b, a) in enumerate(zip(before, after)):
-                                    msgs += check_scope_and_report(desc, b, a, ret, "master%d " % k, known_out=kout)
+                                    msgs += check_scope_and_report(desc, b, a, ret, "master%d " % k, known_out=kout,
+                                                                   allowed=allowed_u if desc["cls"] not in NO_INCLUDE else None)
                             for fid, ps in kout or []:
                                 known.append({"step": i, "finding": fid, "paths": ps})
                     # (b) source untouched when a separate glyph set was passed
